@@ -97,6 +97,11 @@ func (e *Engine) invoke(st *State, th *Thread, fnv Value, args []Value, inst ssa
 		finish(nil)
 		return
 	}
+	if fn.Pkg != nil && fn.Signature.Recv() != nil && stubMethodPkgs[fn.Pkg.Pkg.Path()] {
+		e.res.Stubs["stub-methods:"+fn.Pkg.Pkg.Path()]++
+		finish(e.zeroResults(fn))
+		return
+	}
 	if fn.Pkg != nil && stubPkgs[fn.Pkg.Pkg.Path()] {
 		e.res.Stubs["stub-pkg:"+fn.Pkg.Pkg.Path()]++
 		finish(e.zeroResults(fn))
@@ -112,6 +117,11 @@ func (e *Engine) invoke(st *State, th *Thread, fnv Value, args []Value, inst ssa
 var stubPkgs = map[string]bool{
 	"github.com/samaritan-proxy/samaritan/logger": true,
 	"github.com/tevino/log":                      true,
+}
+
+// stubMethodPkgs: methods (not constructors) of these packages are empty bodies.
+var stubMethodPkgs = map[string]bool{
+	"github.com/samaritan-proxy/samaritan/proc/internal/log": true,
 }
 
 // callThen pushes a call whose return value is handed to k instead of a register.
@@ -201,6 +211,50 @@ func (e *Engine) builtin(st *State, th *Thread, b *ssa.Builtin, args []Value, ca
 			r = c.Ite(lt, t, r)
 		}
 		return r
+	case "String": // unsafe.String(ptr, len)
+		p := args[0].(Ptr)
+		n := e.idx64(args[1], call.Args[1].Type())
+		if p.Obj == 0 {
+			return Str{IsConst: true}
+		}
+		if len(p.Sym) > 0 {
+			p = e.resolvePtr(st, p)
+		}
+		o := e.obj(st, p.Obj)
+		r := Str{Sl: Slice{Obj: p.Obj, Base: 0, Stride: 1, ArrLen: len(o.Cells), Off: e.i64(uint64(p.Off)), Len: n, Cap: n}}
+		if cs, ok := e.strConcrete(st, r); ok {
+			return Str{IsConst: true, S: cs}
+		}
+		return r
+	case "StringData":
+		sv := args[0].(Str)
+		if sv.IsConst {
+			sl := e.strToSlice(st, sv)
+			return Ptr{Obj: sl.Obj}
+		}
+		off := e.concretize(st, sv.Sl.Off, "unsafe.StringData offset")
+		return Ptr{Obj: sv.Sl.Obj, Off: sv.Sl.Base + int(off)}
+	case "SliceData":
+		sv := args[0].(Slice)
+		if sv.Obj == 0 {
+			return Ptr{}
+		}
+		off := e.concretize(st, sv.Off, "unsafe.SliceData offset")
+		return Ptr{Obj: sv.Obj, Off: sv.Base + int(off)*sv.Stride}
+	case "Slice": // unsafe.Slice(ptr, len)
+		p := args[0].(Ptr)
+		n := e.idx64(args[1], call.Args[1].Type())
+		if p.Obj == 0 {
+			z := e.i64(0)
+			return Slice{Off: z, Len: z, Cap: z, Stride: 1}
+		}
+		if len(p.Sym) > 0 {
+			p = e.resolvePtr(st, p)
+		}
+		elem := call.Args[0].Type().Underlying().(*types.Pointer).Elem()
+		stride := e.L.size(elem)
+		o := e.obj(st, p.Obj)
+		return Slice{Obj: p.Obj, Base: p.Off % stride, Stride: stride, ArrLen: (len(o.Cells) - p.Off%stride) / stride, Off: e.i64(uint64(p.Off / stride)), Len: n, Cap: n}
 	case "clear":
 		if m, ok := args[0].(MapV); ok {
 			o := e.wobj(st, m.Obj)
